@@ -4,11 +4,13 @@ CONSTANTS
   N = 3
   Byz <- NoByz
   Nodes <- Nodes3
-  Blk0 <- NoBlocks
+  Blk0s <- NoBlocks
   MaxBlocks = 3
   MaxRestarts = 1
   ByzMode = "branch"
   ByzRanges <- R123
+  Runs = FALSE
+  BadKinds <- OnlyOk
   Fixes <- AllFixes
 VIEW view
 ACTION_CONSTRAINT GenLog
